@@ -21,11 +21,15 @@ def demo_cmd(path):
     """first command block of the free-form demo.txt: non-comment lines up to the first blank line,
     without trailing `; echo ...` (so the exit status is the demo's) and without git apply/checkout"""
     block = []
+    import re as _re0
+    start = _re0.compile(r"^\s*(g\+\+|gcc|c\+\+|cc |clang|cd |sh |bash |mkdir|make|\./|/tmp|export |set |[A-Z_][A-Z0-9_]*=|\()")
     for l in open(path).read().splitlines():
-        if not l.strip():
-            if block:
-                break
+        if not block:
+            if start.match(l) and not l.lstrip().startswith("git "):
+                block.append(l)
             continue
+        if not l.strip():
+            break
         if l.lstrip().startswith("#") or l.lstrip().startswith("git "):
             continue
         block.append(l)
